@@ -131,6 +131,8 @@ func (ex *Exchange[H]) Head(ctx context.Context, opts ...header.HeadOption[H]) (
 	defer span.End()
 
 	startTime := time.Now()
+	// the lifecycle context of this run of the Exchange: a Stop followed by a Start replaces ex.ctx
+	exCtx := ex.ctx
 	// wrap ctx with cancel so we can abort outstanding peer requests early
 	// once enough peers agree on the same head (consensus reached)
 	reqCtx, reqCancel := context.WithCancel(ctx)
@@ -248,10 +250,10 @@ func (ex *Exchange[H]) Head(ctx context.Context, opts ...header.HeadOption[H]) (
 			span.SetStatus(codes.Error, fmt.Sprintf("head request %s", status))
 			ex.metrics.head(ctx, time.Since(startTime), len(headers), headType, status)
 			return zero, ctx.Err()
-		case <-ex.ctx.Done():
+		case <-exCtx.Done():
 			ex.metrics.head(ctx, time.Since(startTime), len(headers), headType, headStatusCanceled)
 			span.SetStatus(codes.Error, "exchange client stopped")
-			return zero, ex.ctx.Err()
+			return zero, exCtx.Err()
 		}
 	}
 
@@ -389,6 +391,9 @@ func (ex *Exchange[H]) performRequest(
 	if len(trustedPeers) == 0 {
 		return nil, errors.New("no trusted peers")
 	}
+	// the lifecycle context of this run of the Exchange: a Stop followed by a Start replaces ex.ctx,
+	// and the error of a context that was just put in place is nil
+	exCtx := ex.ctx
 
 	// Fire requests to all trusted peers in parallel and return the first
 	// valid response. This avoids a single slow or broken peer blocking the
@@ -423,8 +428,8 @@ func (ex *Exchange[H]) performRequest(
 			lastErr = res.err
 		case <-ctx.Done():
 			return nil, ctx.Err()
-		case <-ex.ctx.Done():
-			return nil, ex.ctx.Err()
+		case <-exCtx.Done():
+			return nil, exCtx.Err()
 		}
 	}
 	return nil, lastErr
